@@ -52,6 +52,9 @@ def snake_to_camel(name):
 
 
 def run(ctx):
+    # reading a column (as_array with a masked_value, as_item, serialize, ==) must not write into the column
+    from ..lints import readers_leave_object
+    readers_leave_object(ctx, BCIF, "R5.reading-leaves-column", 6)
     bcifwire.check(ctx, "R5")
     s = ctx.src(ENC)
     # ---------------- R1 registry ---------------------------------------------
@@ -186,6 +189,9 @@ def compress_rules(ctx, R="R3", with_downcast=True):
     # which encoding chain a column gets is decided by its dtype family (string / floating / integer): all widths of it
     dtype_family_tests(ctx, COMPRESS, f"{R}.dtype-family-test", 3)
     dtype_family_tests(ctx, ENC, f"{R}.dtype-family-test", 5)
+    from ..lints import parameter_threaded
+    # the tolerance given to compress() is the one every level (file, block, category, column, data) works with
+    parameter_threaded(ctx, COMPRESS, f"{R}.tolerance-forwarded", "float_tolerance", 5)
     cz = ctx.src(COMPRESS)
     cd = cz.func("_compress_data")
     g2 = CFG(cd, lambda st: isinstance(st, ast.Raise))
@@ -234,6 +240,12 @@ def compress_rules(ctx, R="R3", with_downcast=True):
 
 
 MUTANTS = [
+    Mutant("packer-single-float", BCIF, "            serialized_content, use_bin_type=True, default=_encode_numpy\n", "            serialized_content, use_bin_type=True, use_single_float=True, default=_encode_numpy\n",
+           "R5.msgpack-lossless"),
+    Mutant("category-tolerance-default", COMPRESS, "        compressed_column = _compress_column(bcif_column, float_tolerance)\n", "        compressed_column = compress(bcif_column)\n",
+           "R3.tolerance-forwarded", "_compress_category"),
+    Mutant("as-array-masks-in-place", BCIF, "                array = self._data.array.astype(dtype, copy=True)\n", "                array = self._data.array.astype(dtype, copy=False)\n",
+           "R5.reading-leaves-column", "BinaryCIFColumn.as_array"),
     Mutant("compress-float64-only", COMPRESS, "    elif np.issubdtype(array.dtype, np.floating):\n", "    elif np.issubdtype(array.dtype, float):\n", "R3.dtype-family-test"),
     Mutant("compress-int64-only", COMPRESS, "    elif np.issubdtype(array.dtype, np.integer):\n", "    elif np.issubdtype(array.dtype, int):\n", "R3.dtype-family-test"),
     Mutant("compress-fallback-narrowed-array", COMPRESS,
